@@ -24,6 +24,14 @@ impl std::ops::Rem for &Primitive {
             _ => (),
         }
 
+        // the smallest int / bigint modulo -1 is 0, but the machine remainder overflows on it
+        // exactly like the quotient does
+        match (self, rhs) {
+            (Int(i32::MIN), Int(-1)) => return Ok(Int(0)),
+            (BigInt(i128::MIN), Int(-1) | BigInt(-1)) => return Ok(BigInt(0)),
+            _ => (),
+        }
+
         let (t1, t2) = (&self, &rhs);
 
         let math = apply_math_bin_op_if_applicable!(t1 % t2);
